@@ -107,9 +107,10 @@ theorem c03_counterexample_out_of_range :
     (Wit.firstCycle Wit.driftLiteralRange).2 = [("s", .i .dint 1000)] ∧
     IKind.sint.inRange 1000 = false := by decide +kernel
 
-/-- **Counterexample (BOOL in an integer variable through the unchecked ELSE branch of CASE).** -/
-theorem c03_counterexample_case_else :
-    Wit.caseElseStore.accepted = true ∧ Wit.caseElseStore.acceptedFixed = false ∧
+/-- **Regression fact (ELSE branch of CASE, fixed in 22a8b8f).**  `d := TRUE` with `d : DINT`
+inside `CASE … ELSE` is now rejected; before the fix it was accepted and left `Bool` in `d`. -/
+theorem c03_case_else_now_rejected :
+    Wit.caseElseStore.accepted = false ∧ Wit.caseElseStore.acceptedBefore22a8b8f = true ∧
     (Wit.firstCycle Wit.caseElseStore).2 = [("d", .b true)] := by decide +kernel
 
 /-- The modelled repair of the write path (coerce to the declared type, `Overflow` when it does
